@@ -196,7 +196,7 @@ def sound_obligations(pid, tier, seed):
                     r['obligations'].append(dict(id='%s/native/%s/%s/%s/n%d' % (pid, fam, impl, kind, n0), mod='h_repr', fn='native', nk=0,
                                                  args=[('e', 'int'), ('p', 'int')], pre=['0 <= e < %d' % ne, '0 <= p < %d' % npal],
                                                  params=dict(family=fam, kind=kind, impl=impl, n0=n0), timeout=t))
-    r['obligations'] += tree_ir_obligations(pid, tier, ['sound'], fams=['II', 'LL'] if tier == 'quick' else ['II', 'UU', 'LL', 'QQ'], sets=True)
+    r['obligations'] += tree_ir_obligations(pid, tier, ['sound'], big=False, fams=['II', 'LL'] if tier == 'quick' else ['II', 'UU', 'LL', 'QQ'], sets=True)
     r['bounds']['ir_tree'] = '_BTree_set from IR on the stratified (2,2) catalogue core + stale-separator variants + (3,2) shapes, fully symbolic words'
     r['bounds']['native_families'] = 'II OI IF LL: every writing entry point x a palette of %d representable / unrepresentable arguments, from 0 and 3 entries' % npal
     return r
@@ -609,7 +609,7 @@ def commit_obligations(pid, tier, seed):
                                         args=args + [('y', 'int'), ('op2', 'int'), ('cut2', 'int')],
                                         pre=pre + ['0 <= op2 < %d' % nops2, '0 <= cut2 < 2'], params=P2, timeout=t))
     obs += leaf_ir_obligations(pid, tier, 'notify')
-    obs += tree_ir_obligations(pid, tier, ['notify'], fams=['II', 'QQ'] if tier == 'quick' else ['II', 'UU', 'LL', 'QQ'], sets=True)
+    obs += tree_ir_obligations(pid, tier, ['notify'], big=False, fams=['II', 'QQ'] if tier == 'quick' else ['II', 'UU', 'LL', 'QQ'], sets=True)
     bounds.update(per_condition_timeout_s=t, transactions='one operation + commit|abort; second operation + commit|abort on shapes with <= 4 (quick) / 5 keys')
     return {'obligations': obs, 'bounds': bounds}
 
@@ -660,7 +660,7 @@ def evict_obligations(pid, tier, seed):
                             args=[('ka', 'int'), ('kb', 'int'), ('ga', 'bool'), ('gb', 'bool')], pre=['0 <= ka < 4', '0 <= kb < 4'],
                             params=dict(family=fam, impl=impl, op=op_), timeout=t))
     obs += leaf_ir_obligations(pid, tier, 'pins')
-    obs += tree_ir_obligations(pid, tier, ['pins'], fams=['UU', 'LL'] if tier == 'quick' else ['II', 'UU', 'LL', 'QQ'])
+    obs += tree_ir_obligations(pid, tier, ['pins'], big=False, fams=['UU', 'LL'] if tier == 'quick' else ['II', 'UU', 'LL', 'QQ'])
     bounds.update(per_condition_timeout_s=t, eviction_point='the e-th key comparison of the operation sweeps the whole cache (e solver-chosen, '
                   '1..40; beyond the last comparison = no sweep inside); before the operation all nodes are ghosts or all active (solver-chosen)')
     return {'obligations': obs, 'bounds': bounds}
@@ -811,7 +811,7 @@ def ref_obligations(pid, tier, seed):
     # a history that killed the interpreter during the catalogue search
     obs += failed_history_obligations(pid, impls=('c',))
     # memory bounds and reference accounting of the native-key families, decided on the IR (engine E2)
-    obs += tree_ir_obligations(pid, tier, ['refs'], fams=['II', 'QQ'] if quick else ['II', 'UU', 'LL', 'QQ'], sets=True)
+    obs += tree_ir_obligations(pid, tier, ['refs'], big=False, fams=['II', 'QQ'] if quick else ['II', 'UU', 'LL', 'QQ'], sets=True)
     bounds.update(per_condition_timeout_s=t, ir_tree='_BTree_set from IR on the stratified (2,2) catalogue core + stale-separator variants + (3,2) shapes')
     return {'obligations': obs, 'bounds': bounds}
 
@@ -1104,7 +1104,7 @@ def leaf_ir_obligations(pid, tier, what):
     return obs
 
 
-def tree_ir_obligations(pid, tier, focus, fams=None, sets=False, oom=False):
+def tree_ir_obligations(pid, tier, focus, fams=None, sets=False, oom=False, big=True):
     """engine E2 at tree level: _BTree_set of the native-key families from IR, one call from every stratified catalogue
     shape (plus stale-separator variants, leaves with spare capacity, never-stored trees)"""
     obs = []
@@ -1113,7 +1113,12 @@ def tree_ir_obligations(pid, tier, focus, fams=None, sets=False, oom=False):
     c5, _ = cat('OO', 'c', 'BTree', 5, 2, 2)
     c6, _ = cat('OO', 'c', 'BTree', 6, 2, 2)
     base = list(shapes.stratify(c5, 2, 2))
-    base += [s_ for s_ in shapes.stratify_large(c6, 2, 2) if s_ not in base]
+    lean = quick and not big        # the four properties that share the kernel with C01 take a leaner quick plan
+    if lean:
+        base += [s_ for s_ in shapes.stratify(c6, 2, 2, want={'depth4', 'two_nonfirst_steps_first_leaf_1', 'nonfirst_bottom_first_leaf_1'})
+                 if s_ not in base]
+    else:
+        base += [s_ for s_ in shapes.stratify_large(c6, 2, 2) if s_ not in base]
     # the first family runs the COMPLETE N=5 catalogue plus every four-level shape of the N=6 catalogue with <= 4 keys
     # (thorough: the complete N=6 catalogue); the others the stratified core
     if quick:
@@ -1135,7 +1140,9 @@ def tree_ir_obligations(pid, tier, focus, fams=None, sets=False, oom=False):
             # first (32-bit) and last (64-bit) family only
             if cls == 'v' and fam not in (fams[0], fams[-1]):
                 continue
-            if cls == 'big' and (fam != fams[0] or oom):
+            if lean and fam != fams[0] and (cls == 'v' or shapes.n_ranks(tp) > 3):
+                continue
+            if cls == 'big' and (fam != fams[0] or oom or (not big and tier == 'quick')):
                 continue
             if oom and (not stored or spare):
                 continue            # with spare capacity in every vector a call may not allocate at all
